@@ -313,9 +313,10 @@ using namespace UTAP;
 static XMLReader R;
 static ParserBuilder PB;
 extern "C" {
-void wx_has(int i, int a, int present) { N_has[i * 5 + a] = present; }
+void wx_has(int i, int a, int present) { __CPROVER_assert(i >= 0 && i < NNODE, "harness: node table capacity"); N_has[i * 5 + a] = present; }
 void wx_node(int i, int type, int tag, int empty, int a_ref, int a_id, int a_kind, int a_controllable, int a_action, int text)
 {
+    __CPROVER_assert(i >= 0 && i < NNODE, "harness: node table capacity");
     N_type[i] = type; N_tag[i] = tag; N_empty[i] = empty; N_text[i] = text;
     N_val[i * 5 + 0] = a_ref; N_val[i * 5 + 1] = a_id; N_val[i * 5 + 2] = a_kind; N_val[i * 5 + 3] = a_controllable; N_val[i * 5 + 4] = a_action;
 }
